@@ -604,6 +604,21 @@ class Exec:
             elif isinstance(s, (ast.Import, ast.ImportFrom)):
                 pass
             elif isinstance(s, ast.Assign):
+                forked = self.fork_call(s.value, env, path) if isinstance(s.value, ast.Call) else None
+                if forked is not None and len(forked) == 1:
+                    path.entries = list(forked[0].path.entries)
+                    for tgt in s.targets:
+                        self.assign(tgt, forked[0].value, env, path)
+                    return CONTINUE
+                if forked is not None:
+                    # the callee returns on several paths whose values cannot be merged (e.g. arrays of different sizes):
+                    # the caller continues once per callee path
+                    for o in forked:
+                        e2 = self.fork(env)
+                        for tgt in s.targets:
+                            self.assign(tgt, o.value, e2, o.path)
+                        self.block(rest, e2, o.path, outs, k)
+                    return
                 v = self.ev(s.value, env, path)
                 for tgt in s.targets:
                     self.assign(tgt, v, env, path)
@@ -1273,6 +1288,47 @@ class Exec:
         self.cur_call = e
         return self.apply(f, args, kw, path, e)
 
+    def fork_call(self, e, env, path):
+        """statement-level call of an undecorated repository method without a contract: if it returns on more than one
+        live path, hand the outcomes back unmerged (None = evaluate normally)"""
+        try:
+            if isinstance(e.func, ast.Name) and e.func.id == "super":
+                return None
+            f = self.ev(e.func, env, path)
+        except Unsupported:
+            return None
+        if not (isinstance(f, tuple) and f and f[0] == "method"):
+            return None
+        _, obj, name = f
+        try:
+            owner, fn = self.find(obj.cls, name)
+        except KeyError:
+            return None
+        if (owner, name) in self.contracts or fn.decorator_list and not self.is_static(fn):
+            return None
+        args = []
+        for a in e.args:
+            if isinstance(a, ast.Starred):
+                args.extend(self.ev(a.value, env, path))
+            else:
+                args.append(self.ev(a, env, path))
+        kw = {}
+        for k_ in e.keywords:
+            if k_.arg is None:
+                kw.update(self.ev(k_.value, env, path))
+            else:
+                kw[k_.arg] = self.ev(k_.value, env, path)
+        self.calls.append((f"{owner}.{name}", getattr(e, "lineno", 0)))
+        a_ = ([obj] if not self.is_static(fn) else []) + args
+        outs = self.call_outs(owner, fn, a_, kw, path)
+        live = [o for o in outs if not o.raised]
+        for o in outs:
+            if o.raised:
+                self.raises.append((o.path.pc, o.value))
+        if not live:
+            raise CalleeRaises(outs[0].value if outs else PyRaise("?"))
+        return live
+
     def apply(self, f, args, kw, path, e=None):
         if f in (int, float, bool, str, list, tuple, dict, set):
             return self.builtin_type(f, args, kw, path)
@@ -1482,6 +1538,13 @@ class Exec:
                             wrapper = self.apply(r, [rawfn], {}, path)
                         return self.apply(wrapper, args, kw, path)
                     raise Unsupported(f"decorator {dn.id}")
+        outs = self.call_outs(owner, fn, args, kw, path, env)
+        return self.merge(outs, path)
+
+    def call_outs(self, owner, fn, args, kw, path, env=None):
+        """runs the body of a repository function; returns the list of outcomes (one per path), unmerged"""
+        if env is None:
+            env = {"__class__": owner, "__module__": self.cls_mod.get(owner) if owner else self.module_of(fn)}
         self.bind(fn, args, kw, env, path)
         self.cur_fn.append(f"{owner}.{fn.name}" if owner else fn.name)
         self.cur_node.append(fn)
@@ -1495,7 +1558,7 @@ class Exec:
             self.cur_fn.pop()
             self.cur_node.pop()
         self.locals.setdefault(fn.name, []).append(outs)
-        return self.merge(outs, path)
+        return outs
 
     def merge(self, outs, path):
         base = len(path.entries)
@@ -1759,7 +1822,9 @@ class Exec:
             if not conds:
                 return vv
             return ite(And(*conds) if len(conds) > 1 else conds[0], vv, base.elem(*idx))
-        return T(base.axes, elem, kind=base.kind, prov=base.prov)
+        out = T(base.axes, elem, kind=base.kind, prov=base.prov)
+        out.written = list(getattr(base, "written", [])) + [tuple(iv for _, iv in fixed)]
+        return out
 
 
 def int_of_real(r):
